@@ -142,3 +142,19 @@ Proof.
   - intros a b _ _ H. apply Hsym. exact H.
   - exact Hcs.
 Qed.
+
+(* d.prune() without arguments straight after Dendrogram.compute(min_npix = n/m, user criteria),
+   min_delta = 0: every argument inherits the recorded value, and nothing changes - neither
+   the recorded parameters nor the structures *)
+Theorem prune_call_without_arguments_after_compute shape per vals minv n m user :
+  Forall (fun k => 0 < k) shape -> nodelta user = true ->
+  let cs := MinDelta 0 :: MinNpix n m :: user in
+  prune (0, (n, m)) 0 (0, 1) user (compute shape (AdjGrid per) vals minv cs)
+  = ((0, (n, m)), compute shape (AdjGrid per) vals minv cs).
+Proof.
+  intros Hshape Hu cs. unfold prune. cbn [fst snd].
+  unfold rec_delta, rec_npix, eff_delta, eff_npix, npix_lt. cbn [fst snd].
+  rewrite Z.eqb_refl. rewrite !Z.ltb_irrefl. f_equal.
+  apply grid_prune_same; [exact Hshape |].
+  subst cs. unfold nodelta in *. cbn [forallb]. rewrite Hu. reflexivity.
+Qed.
